@@ -5,6 +5,7 @@ mod pgen;
 mod grid;
 mod host;
 mod model;
+mod illtyped;
 mod mutate;
 mod progexec;
 mod reduce;
